@@ -93,7 +93,9 @@ def build(rec):
             E.silent.update(['verdict', 'hits', 'stdout', 'bindings', 'line'])
             E.notes.append('asynchronous fault planned: model silent')
         if e.get('swapped_stdout'):
-            E.silent.update(['stdout', 'verdict'])
+            # what is lost depends on where the parts are cut: the model is silent
+            # for the execution that replaced sys.stdout itself (not for later ones)
+            E.silent.update(['stdout', 'verdict', 'hits', 'bindings', 'line'])
         e['E'] = E
     return meta
 
@@ -156,14 +158,18 @@ def cmp_stdout(e, E):
     if E is None or 'stdout' in E.silent or e.get('logged_stdout') is None:
         return []
     got = ''.join(t for t in e['logged_stdout'] if t)
-    exp_variants = ['']
+    positions = {0}
     for idx, text, alt in E.step_out:
-        nxt = [v + text for v in exp_variants]
-        if alt is not None:
-            nxt += [v + alt for v in exp_variants]
-        exp_variants = nxt[:16]
-    if got not in exp_variants:
-        return ['recorded stdout %r differs from what the code wrote %r' % (got[-200:], exp_variants[0][-200:])]
+        nxt = set()
+        for pos in positions:
+            for cand in (text, alt):
+                if cand is not None and got.startswith(cand, pos):
+                    nxt.add(pos + len(cand))
+        positions = nxt
+        if not positions:
+            break
+    if len(got) not in positions:
+        return ['recorded stdout %r differs from what the code wrote %r' % (got[-200:], ''.join(t for i, t, a in E.step_out)[-200:])]
     return []
 
 
